@@ -9,7 +9,7 @@ from vk.ob import obligation
 
 @obligation(funcs=["storage.db.Subscription.build_query", "storage.db.Subscription.evaluate_filter",
                    "storage.db.DBStorage.process_tags"],
-            params=range(8), timeout=(450, 1500), bounds=C01_sql.ob_sql_where._vk["bounds"])
+            params=range(9), timeout=(450, 1500), bounds=C01_sql.ob_sql_where._vk["bounds"])
 def ob_sql_complete(idsel: int, pksel: int, kind: int, ts: int, tn: int, tv: int, bare: bool, deleg: int,
                     h1: int, k1: int, k2: int, two: bool, since: Optional[int], until: Optional[int], n1: int, v1: int, v2: int) -> str:
     """
